@@ -72,14 +72,14 @@ example : printE (.str "x'~/a'") = [.ident "x", .strAdj "'~/a'"]
   · simp [parseExpression, parseDisjunct, parseConjunct, parseValue, printE, xLit, litTokens]
 
 /-- the `After` hypothesis is necessary: a trailing identifier does swallow a following `(` or, after `x`, a
-string written directly after it - the variable `f` followed by `('a')` is the call `f('a')`, `x` followed at
+string written directly after it - the variable `trim` followed by `('a')` is the call `trim('a')`, `x` followed at
 once by `'a'` is `x'a'`; with white space between them (`x 'a'`: a plain `str` token) nothing is swallowed -/
-example : parseExpression 9 (printE (.var "f") ++ [.lparen, .str "'a'", .rparen])
-      = some (.call "f" (.cons (.str "'a'") .nil), [])
+example (hfn : fnOk "trim" 1 = true) : parseExpression 9 (printE (.var "trim") ++ [.lparen, .str "'a'", .rparen])
+      = some (.call "trim" (.cons (.str "'a'") .nil), [])
     ∧ parseExpression 5 (printE (.var "x") ++ [.strAdj "'a'"]) = some (.str "x'a'", [])
     ∧ parseExpression 5 (printE (.var "x") ++ [.str "'a'"]) = some (.var "x", [.str "'a'"]) := by
   refine ⟨?_, ?_, ?_⟩
-  · simp [parseExpression, parseDisjunct, parseConjunct, parseValue, parseSequence, printE]
+  · simp [parseExpression, parseDisjunct, parseConjunct, parseValue, parseSequence, printE, Exprs.length, hfn]
   · simp [parseExpression, parseDisjunct, parseConjunct, parseValue, printE, xLit]
   · simp [parseExpression, parseDisjunct, parseConjunct, parseValue, printE]
 
@@ -272,11 +272,12 @@ example : Header.WFArgs [.str "'a'", .group (.str "'b'"), .str "x'c'", .group (.
     rw [this]; exact stopE_cons 3 _ _ _ (by simp [blocksE])
   · exact (by simp [WF, okName] : WF (.group (.var "d")))
 
-/-- non-vacuity: `if a == (b + 'c') { f(x, y) / z } else if … { … } else { / w && v || u }` is well-formed -/
-example : WF (.cond (.var "a") .eq (.group (.concat (.var "b") (.str "'c'")))
-    (.joinL (.call "f" (.cons (.var "x") (.cons (.var "y") .nil))) (.var "z"))
+/-- non-vacuity (`hfn`: the regenerated function table knows `join` with two arguments, which the correspondence run
+exercises; table look-ups do not reduce in the kernel): `if a == (b + 'c') { join(x, y) / z } else if … { … } else { / w && v || u }` is well-formed -/
+example (hfn : fnOk "join" 2 = true) : WF (.cond (.var "a") .eq (.group (.concat (.var "b") (.str "'c'")))
+    (.joinL (.call "join" (.cons (.var "x") (.cons (.var "y") .nil))) (.var "z"))
     (.cond (.var "p") .match (.str "'r'") (.backtick "`q`")
       (.or (.and (.joinR (.var "w")) (.var "v")) (.var "u")))) := by
-  simp [WF, WFs, level, okName]
+  simp [WF, WFs, level, okName, Exprs.length, hfn]
 
 end Just.C10
